@@ -1,7 +1,10 @@
 """C08 - symbolic names and registry codes are in one-to-one correspondence."""
 from __future__ import annotations
 
-from .. import refcbor, registry
+import itertools
+from collections.abc import Mapping
+
+from .. import impl, refcbor, registry
 from ..core import CaseStage, h8
 from ..refcbor import enc, Raw, Tag
 
@@ -416,6 +419,143 @@ def run_pseudo(case, agg):
         return
     agg.ok(h8("pseudo", which), "ok:pseudo", sample={"member": which})
 
+# -- objects of the model are independent of each other ----------------------------------------------------------
+def _enum_classes():
+    """every enumeration class of the tool's object model (driver only: which classes exist; what they must do is
+    measured on fresh objects before anything is modified)"""
+    import importlib, pkgutil
+    import suit_generator.suit as pkg
+    from suit_generator.suit.types.common import SuitEnum
+    for m in pkgutil.walk_packages(pkg.__path__, pkg.__name__ + "."):
+        try:
+            importlib.import_module(m.name)
+        except Exception:
+            pass
+    out, todo = [], [SuitEnum]
+    while todo:
+        c = todo.pop()
+        for sc in c.__subclasses__():
+            todo.append(sc)
+            if getattr(getattr(sc, "_metadata", None), "children", None):
+                out.append(sc)
+    return sorted(set(out), key=lambda c: c.__module__ + "." + c.__qualname__)
+
+
+def enum_mut_cases():
+    return [{"cls": i} for i in range(len(_enum_classes()))]
+
+
+def run_enum_mut(case, agg):
+    """for every enumeration class and every ordered pair (A, B) of its names: an object decoded from A's code (or built
+    from A's name) is switched to B through the model's value setter - as the project's own tests do before re-computing
+    digests; the switched object encodes B, and a NEW object decoded from A's code / built from A's name is still A"""
+    import cbor2
+    cls = _enum_classes()[case["cls"]]
+    kids = list(cls._metadata.children)
+    base = []
+    for k in kids:                       # measured before anything is modified
+        try:
+            o = cls.from_obj(k.name)
+            enc = o.to_cbor()
+            base.append((k.name, enc, cls.from_cbor(enc).to_obj()))
+        except Exception as e:
+            agg.viol(f"C08:enum/{type(e).__name__}", f"{cls.__name__}: name {k.name!r}: {type(e).__name__}: {e}")
+            return
+    for a, enc_a, back_a in base:
+        if back_a != a:
+            agg.viol("C08:enum/name-code-name", f"{cls.__name__}: {a!r} -> {enc_a.hex()} -> {back_a!r}")
+            return
+    n = 0
+    for (a, enc_a, _), (b, enc_b, _) in itertools.permutations(base, 2):
+        for how in ("decoded", "built"):
+            try:
+                x = cls.from_cbor(enc_a) if how == "decoded" else cls.from_obj(a)
+                x.value = b
+                got_x = x.to_cbor()
+                y1, y2 = cls.from_cbor(enc_a), cls.from_obj(a)
+                res = (y1.to_obj(), y1.to_cbor(), y2.to_obj(), y2.to_cbor())
+            except Exception as e:
+                agg.viol(f"C08:enum-object-shared/{type(e).__name__}", f"{cls.__name__}: {how} {a!r} switched to {b!r}: {type(e).__name__}: {e}")
+                return
+            if got_x != enc_b:
+                agg.viol("C08:enum-object-shared/switch-ignored", f"{cls.__name__}: an object {how} as {a!r} and switched to {b!r} encodes {got_x.hex()}, {b!r} is {enc_b.hex()}")
+                return
+            if res != (a, enc_a, a, enc_a):
+                agg.viol("C08:enum-object-shared", f"{cls.__name__}: after an object {how} as {a!r} was switched to {b!r}, a NEW object for code {enc_a.hex()} / name {a!r} "
+                         f"renders {res[0]!r} / encodes {res[1].hex()}; from the name: {res[2]!r} / {res[3].hex()}")
+                return
+            n += 1
+    agg.evaluations += max(0, n - 1)
+    agg.ok(h8("c08enum", cls.__name__), f"ok:enum-pairs", sample={"class": cls.__name__, "names": len(kids), "ordered_pairs_x2": n} if case["cls"] < 2 else None)
+
+
+def _mutate_leaves(o, seen, depth=0):
+    """switch every enumeration / integer / string leaf reachable from a parsed object to another value; -> count"""
+    from suit_generator.suit.types.common import SuitEnum, SuitInt, SuitBstr, SuitTstr, SuitObject
+    if id(o) in seen or depth > 60:
+        return 0
+    seen.add(id(o))
+    n = 0
+    if isinstance(o, SuitEnum):
+        names = [c.name for c in o._metadata.children]
+        if o.value in names and len(names) > 1:
+            o.value = names[(names.index(o.value) + 1) % len(names)]
+            return 1
+        return 0
+    if isinstance(o, SuitObject) and type(getattr(o, "value", None)) is int and isinstance(o, SuitInt):
+        o.value = o.value + 1
+        return 1
+    if isinstance(o, SuitObject) and isinstance(o, (SuitBstr, SuitTstr)) and isinstance(getattr(o, "value", None), (bytes, str)):
+        o.value = o.value + (b"\x5a" if isinstance(o.value, bytes) else "Z")
+        return 1
+    if isinstance(o, (list, tuple)):
+        for x in o:
+            n += _mutate_leaves(x, seen, depth + 1)
+    elif isinstance(o, Mapping):
+        for x in list(o.values()):
+            n += _mutate_leaves(x, seen, depth + 1)
+        for x in list(o.keys()):
+            if not isinstance(x, (str, int, bytes, type)):
+                n += _mutate_leaves(x, seen, depth + 1)
+    elif hasattr(o, "__dict__") and not isinstance(o, type):
+        for x in list(vars(o).values()):
+            n += _mutate_leaves(x, seen, depth + 1)
+    elif type(o).__name__ == "CBORTag":
+        n += _mutate_leaves(o.value, seen, depth + 1)
+    return n
+
+
+def run_parsed_mut(case, agg):
+    """parse an envelope, switch EVERY enumeration, integer and string leaf of the parsed object tree to another value
+    (the caller owns that object), then parse the same bytes again: same names, same bytes as the first time"""
+    import copy
+    from ..props import c03
+    from suit_generator.suit.envelope import SuitEnvelopeTagged
+    name = case["seed"]
+    desc = c03.seeds()[name]
+    try:
+        b = impl.tool_create(copy.deepcopy(desc))
+        first = SuitEnvelopeTagged.from_cbor(b)
+        first_obj = first.to_obj()
+        first_bytes = first.to_cbor()
+        built = SuitEnvelopeTagged.from_obj(copy.deepcopy(desc))
+        n = _mutate_leaves(first, set()) + _mutate_leaves(built, set())
+        second = SuitEnvelopeTagged.from_cbor(b)
+        second_obj, second_bytes = second.to_obj(), second.to_cbor()
+        again = impl.tool_create(copy.deepcopy(desc))
+    except Exception as e:
+        agg.viol(f"C08:parsed-object-mutation/{type(e).__name__}", f"seed {name!r}: {type(e).__name__}: {str(e)[:300]}")
+        return
+    if n < 5:
+        agg.viol("C08:parsed-object-mutation/harness", f"seed {name!r}: only {n} leaves of the object model could be reached (object model changed?)")
+        return
+    if first_bytes != b or second_bytes != b or second_obj != first_obj or again != b:
+        what = [w for w, bad in (("second parse renders other names/values", second_obj != first_obj), ("second parse re-encodes to other bytes", second_bytes != b),
+                                 ("creating the description again gives other bytes", again != b), ("first parse does not re-encode to the input", first_bytes != b)) if bad]
+        agg.viol("C08:parsed-object-mutation", f"seed {name!r}: after {n} leaves of an earlier parsed / built object were switched: {'; '.join(what)}")
+        return
+    agg.ok(h8("c08pm", name), "ok:parsed-object-mutation", sample={"seed": name, "leaves_switched": n})
+
 
 def plan(tier):
     return [
@@ -425,6 +565,10 @@ def plan(tier):
         CaseStage("cross-placement-beside-valid", cross_second_cases, run_cross_second,
                   rule="every foreign name as a second member beside a valid one (encode), every foreign code beside a valid member's code (decode)"),
         CaseStage("unknown-codes", lambda: unknown_cases(tier), run_unknown, chunk=1, rule="every integer -70000..300 outside the table, every space"),
+        CaseStage("enum-objects-independent", enum_mut_cases, run_enum_mut, chunk=1,
+                  rule="every enumeration class x every ordered pair of names x {decoded, built}: switching one object does not change what a new object renders / encodes"),
+        CaseStage("parsed-object-mutation", [{"seed": s} for s in ("minimal", "payloads", "severed", "severed+payloads", "dependency", "typical")], run_parsed_mut, chunk=1,
+                  rule="6 envelopes: every enum/int/string leaf of a parsed and of a built object switched, then the same bytes parsed and the same description created again"),
         CaseStage("tags", tag_cases, run_tags, rule="tags 107/18/96 and neighbouring tag numbers"),
         CaseStage("pseudo-members", [{"which": w} for w in registry.ENVELOPE_PSEUDO], run_pseudo, rule="integrated payloads/dependencies flattening"),
     ]
